@@ -526,6 +526,20 @@ func rowsrestUPC(c *Ctx) {
 			bs = []bool{false}
 		}
 		rn := r.Pick([]int{0, 1, 7, 49, 1000, -1})
+		// the same reader INSTANCE first reads up to two other rows (the model is a function of the call alone: any
+		// state a reader keeps between rows — string buffers, counters, the add-on supports — must not show)
+		for pre := r.Pick([]int{0, 0, 1, 2}); pre > 0; pre-- {
+			pb, pc := rowsrestGenRow(r, rowsrestPref(i%5))
+			if r.Bool() {
+				if cb, n := rowsrestCleanRow(r, rowsrestPref(i%5)); cb != nil {
+					pb, pc = cb, fmt.Sprintf("clean+addon%d", n)
+				}
+			}
+			if len(pb) > 0 {
+				rowsrestCall(c, rd, rowsrestGenHints(r), rn, pb, pc)
+				c.Note("rowsrest-upc:reused-instance")
+			}
+		}
 		out := rowsrestCall(c, rd, h, rn, bs, class)
 		kind := "err"
 		if strings.HasPrefix(out, "ok") {
